@@ -335,6 +335,15 @@ static int pick_vocab(vh_rng *r, int lang, int nw, int with_transcript, const ch
     int n = 0, i, guard = 0; const char **tr = lang == VD_FR ? fr_transcript : en_transcript;
     pool_init(lang);
     if (with_transcript) for (i = 0; i < 4 && n < nw; ++i) out[n++] = tr[i];
+    if (lang == VD_EN && vh_chance(r, 0.25) && n < nw) {
+        /* a word with three or more dictionary pronunciations */
+        static const char **w3; static int nw3; const vd_lex *lx = vd_lexicon(lang);
+        if (!w3) {
+            int q; w3 = (const char **)calloc(4096, sizeof(char *));
+            for (q = 0; q < lx->n && nw3 < 4096; ++q) { const char *w = lx->word[q]; size_t l = strlen(w); if (l > 3 && l < 24 && !strcmp(w + l - 3, "(3)")) { char *b = strdup(w); b[l - 3] = 0; if (word_ok_for_jsgf(b) && !vd_is_filler_word(b) && vd_lex_find(lx, b) >= 0) w3[nw3++] = b; else free(b); } }
+        }
+        if (nw3 > 0) { const char *w = w3[vh_below(r, (uint32_t)nw3)]; int dup = 0; for (i = 0; i < n; ++i) if (!strcmp(out[i], w)) dup = 1; if (!dup) { out[n++] = w; vh_count("vocabularies_with_a_word_of_three_pronunciations", 1); } }
+    }
     if (vh_chance(r, 0.15)) {
         /* prefix families: some of the words are prefixes / extensions of others in the same grammar */
         int fam = vh_range(r, 1, 3), tries;
@@ -385,7 +394,7 @@ void vd_gram_random(vh_rng *r, int lang, int kind, double transcript_bias, vd_gr
         else for (i = 0; i < n; ++i) seq[i] = V[vh_below(r, (uint32_t)nv)];
         vfsa_init(&g->truth, n + 1, 0, n);
         for (i = 0; i < n; ++i) {
-            const char *w = seq[i], *alt = vh_chance(r, 0.1) ? alt_spelling(r, lang, w) : NULL;
+            const char *w = seq[i], *alt = vh_chance(r, 0.25) ? alt_spelling(r, lang, w) : NULL;
             if (vh_chance(r, 0.06)) { vh_sb_printf(&g->text, "%s%s", g->text.n ? " " : "", (lang == VD_EN && vh_chance(r, 0.4)) ? "[NOISE]" : "<sil>"); g->has_explicit_filler = 1; }   /* a filler named in the text: a dictionary word, but never part of the sentence */
             vh_sb_printf(&g->text, "%s%s", g->text.n ? (vh_chance(r, 0.1) ? "  " : " ") : "", alt ? alt : w);
             if (alt) g->has_alt_explicit = 1;
@@ -441,8 +450,17 @@ void vd_gram_random(vh_rng *r, int lang, int kind, double transcript_bias, vd_gr
             if (t >= n_state) t = n_state - 1;
             arc[na].from = f; arc[na].to = t; arc[na].p = VH_PICK(r, ((double[]){ 1.0, 0.5, 0.1, 0.01, 0.3 })); arc[na].spell = NULL;
             if (vh_chance(r, 0.12) && f != t) arc[na].w = -1;
-            else { arc[na].w = (int)vh_below(r, (uint32_t)nv); if (kind == VG_FSG_TEXT && vh_chance(r, 0.08)) { arc[na].spell = alt_spelling(r, lang, V[arc[na].w]); if (arc[na].spell) { arc[na].spell = strdup(arc[na].spell); g->has_alt_explicit = 1; } } }
+            else { arc[na].w = (int)vh_below(r, (uint32_t)nv); if (kind == VG_FSG_TEXT && vh_chance(r, 0.2)) { arc[na].spell = alt_spelling(r, lang, V[arc[na].w]); if (arc[na].spell) { arc[na].spell = strdup(arc[na].spell); g->has_alt_explicit = 1; } } }
             ++na;
+        }
+        if (kind == VG_FSG_TEXT && vh_chance(r, 0.3)) {
+            /* state numbers carry no meaning: renumber them at random, so that the start state is usually not state 0 */
+            int perm[16], q2;
+            for (q2 = 0; q2 < n_state; ++q2) perm[q2] = q2;
+            for (q2 = n_state - 1; q2 > 0; --q2) { int b2 = (int)vh_below(r, (uint32_t)(q2 + 1)), t2 = perm[q2]; perm[q2] = perm[b2]; perm[b2] = t2; }
+            for (k = 0; k < na; ++k) { arc[k].from = perm[arc[k].from]; arc[k].to = perm[arc[k].to]; }
+            start = perm[start]; final = perm[final];
+            vh_count("fsg_texts_with_renumbered_states", 1); if (start != 0) vh_count("fsg_texts_with_nonzero_start_state", 1);
         }
         vfsa_init(&g->truth, n_state, start, final);
         if (kind == VG_FSG_TEXT && vh_chance(r, 0.15)) {   /* arcs labelled with a filler word: they read as nothing */
@@ -509,12 +527,13 @@ void vd_pattern_random(vh_rng *r, vd_pattern *p, int allow_full_utt)
     p->style = (int)vh_below(r, 7);
     p->no_search_chunks = vh_chance(r, 0.2) ? (vh_chance(r, 0.4) ? -1 : vh_range(r, 1, 6)) : 0;
     p->partial_prob = vh_chance(r, 0.6) ? vh_unit(r) : 0.0;
+    if (!p->full_utt && p->no_search_chunks >= 0 && vh_chance(r, 0.15)) p->no_search_prob = VH_PICK(r, ((double[]){ 0.3, 0.5, 0.7 }));
 }
 void vd_pattern_desc(const vd_pattern *p, char *buf, size_t n)
 {
     static const char *st[] = { "2048-sample chunks", "one streaming call", "random chunks", "tiny chunks", "first chunk < 1 frame", "huge chunks", "short chunk then the rest" };
     if (p->full_utt) snprintf(buf, n, "%s full_utt", p->use_float ? "float32" : "int16");
-    else snprintf(buf, n, "%s %s no_search_chunks=%d partial_prob=%.2f", p->use_float ? "float32" : "int16", st[p->style], p->no_search_chunks, p->partial_prob);
+    else snprintf(buf, n, "%s %s no_search_chunks=%d%s partial_prob=%.2f", p->use_float ? "float32" : "int16", st[p->style], p->no_search_chunks, p->no_search_prob > 0 ? " +interleaved no_search" : "", p->partial_prob);
 }
 
 static int feed(decoder_t *d, const vd_audio *a, long off, long len, int use_float, int no_search, int full_utt, float *fbuf)
@@ -554,7 +573,7 @@ int vd_run(decoder_t *d, const vd_audio *a, vh_rng *r, const vd_pattern *p, vd_p
             default: len = vh_range(r, 20000, 60000); break;
             }
             if (pos + len > a->n) len = a->n - pos;
-            ns = p->no_search_chunks < 0 || chunkno < p->no_search_chunks;
+            ns = p->no_search_chunks < 0 || chunkno < p->no_search_chunks || (p->no_search_prob > 0 && vh_chance(r, p->no_search_prob));
             vh_note("      chunk %ld: %ld samples%s", chunkno, len, ns ? " (no_search)" : "");
             rv = feed(d, a, pos, len, p->use_float, ns, 0, fbuf);
             ++info->ncalls; ++chunkno; pos += len;
